@@ -1,15 +1,24 @@
 """C17 — every simulation terminates and fails loudly."""
+import copy
+import glob
+import os
+import shutil
+import tempfile
+
 import runcheck
 import runoracle
 
 PID = "C17"
 CHUNK = 4
 RULE = ("scenarios from the grammar in harness/scen.py (15 % with infeasible trips), every strategy, one third of the "
-        "runs with a fault injected into the strategy step at a random timestep; watchdog per run; "
+        "runs with a fault injected into the strategy step at a random timestep; every run ends with report generation "
+        "(`testing` aggregates; one run in four also writes the results JSON, the time series CSV per connector and the "
+        "SoC CSV, whose row counts must equal the number of reported steps); watchdog per run; "
         "non-trivial = the run reported at least one step; distinct = distinct (seed, index, strategy)")
 ASSUMPTIONS = ["'bounded time' is judged by a 90 s watchdog per run (wall-clock is not a theorem)"]
-UNPROVED = ["termination of the strategies' internal while-loops (bisection, retry queues) is observed by the "
-            "watchdog, not proved"]
+UNPROVED = ["termination of the strategies' internal while-loops is proved per loop on the strategy models (fuel theorems "
+            "C17_<strategy>_*); the wall-clock sentence itself is observed by the watchdog",
+            "report generation (report.py) is exercised, not modelled here (C18 models its content)"]
 compare = runcheck.compare
 
 
@@ -18,4 +27,41 @@ def gen_cases(tier, seed):
 
 
 def eval_case(case):
-    return runcheck.eval_run(case, [runoracle.check_c17])
+    full = runcheck.build_case(case)
+    if "report" not in full:
+        full["report"] = "files" if case.get("i", 0) % 4 == 1 else "testing"
+    run = copy.deepcopy(full)
+    run["options"] = dict(run["options"], testing=True)
+    tmp = None
+    if full["report"] == "files":
+        tmp = tempfile.mkdtemp(prefix="c17_")
+        run["options"].update(save_results=os.path.join(tmp, "res.json"), save_timeseries=os.path.join(tmp, "ts.csv"),
+                              save_soc=os.path.join(tmp, "soc.csv"))
+    try:
+        res = runcheck.eval_run(run, [runoracle.check_c17])
+        if tmp and res["sample"].get("reported_steps") is not None and not any(
+                k.startswith("C17:exception_escaped") or k.startswith("C17:run_did_not_terminate")
+                for _, k, _ in res["violations"]):
+            si = res["sample"]["reported_steps"]
+            strat = full["strategy"]
+            gcs = list(full["scenario"]["components"]["grid_connectors"])
+            for stem, ext, per_gc in (("res", ".json", True), ("ts", ".csv", True), ("soc", ".csv", False)):
+                files = glob.glob(os.path.join(tmp, stem + "*" + ext))
+                want = len(gcs) if per_gc else 1
+                if len(files) != want:
+                    res["violations"].append(("report", "C17:report_file_missing:%s" % stem,
+                                              "%s: %d file(s) for %d expected after %d steps (aborted=%s)"
+                                              % (strat, len(files), want, si, res["sample"].get("aborted"))))
+                    continue
+                if ext == ".csv":
+                    for f in files:
+                        rows = sum(1 for _ in open(f)) - 1
+                        if rows != si:
+                            res["violations"].append(("equal_length", "C17:report_rows_differ_from_step_count:%s" % stem,
+                                                      "%s: %d rows, %d steps reported" % (strat, rows, si)))
+    finally:
+        if tmp:
+            shutil.rmtree(tmp, ignore_errors=True)
+    res["replay_case"] = full
+    res["stats"] = res.get("stats", []) + ["report:" + full["report"]]
+    return res
